@@ -198,7 +198,9 @@ impl ToolSpec {
         let spec_version = ToolSpecVersion::from_param(param);
         self.versions.insert(new_version, spec_version);
         self.current_version = new_version;
-        if old_ref_count == 0 {
+        // (applying the same version again - an entry replayed on top of a snapshot that already
+        // contains it - must not delete the version it has just written)
+        if old_ref_count == 0 && old_version != new_version {
             self.versions.remove(&old_version);
         }
     }
